@@ -305,7 +305,12 @@ func init() {
 			both := []string{"select", "evaluate"}
 			if tier == "thorough" {
 				red := stepForms([]string{"a", "*", "node()"}, false)
+				cf := stepForms([]string{"a", "A", "ab", "*"}, true)
+				cf = append(cf, gen.At("A"), gen.At("ab"), gen.Ch("A"), gen.Ch("ab"))
 				return []*explore.Space{
+					pathSpace("C01", "S2xCase3", "2-step paths over name tests {a, A, ab} x documents whose names differ only in letter case or extend each other", pathsN(cf, 2), func() []*doc.Tree {
+						return trees("Case3", &doc.Universe{MinN: 0, MaxN: 3, Names: []string{"a", "A", "ab"}, NoComment: true, Attr: "rule", AttrNames: []string{"a", "A", "ab"}, Vals: []string{"1"}})
+					}, both, "set"),
 					pathSpace("C01", "S1xT4", "1-step paths x T(<=4)", pathsN(forms, 1), func() []*doc.Tree { return uniT(4) }, both, "set"),
 					pathSpace("C01", "S2xT4", "2-step paths x T(<=4)", pathsN(forms, 2), func() []*doc.Tree { return uniT(4) }, both, "set"),
 					pathSpace("C01", "S3xT3", "3-step paths over tests {a,*,node()} x T(<=3)", pathsN(red, 3), func() []*doc.Tree { return uniT(3) }, []string{"select"}, "set"),
@@ -313,13 +318,23 @@ func init() {
 					pathSpace("C01", "S2xDeep7", "2-step paths x spine documents of depth 4..7", pathsN(forms, 2), func() []*doc.Tree { return uniDeep(7) }, []string{"select"}, "set"),
 				}
 			}
-			return []*explore.Space{
+			caseForms := stepForms([]string{"a", "A", "ab", "*"}, false)
+			caseForms = append(caseForms, gen.At("a"), gen.At("A"), gen.At("ab"), gen.Ch("a"), gen.Ch("A"), gen.Ch("ab"))
+			caseDocs := func() []*doc.Tree {
+				return trees("Case3", &doc.Universe{MinN: 0, MaxN: 3, Names: []string{"a", "A", "ab"}, NoComment: true,
+					Attr: "rule", AttrNames: []string{"a", "A", "ab"}, Vals: []string{"1"}})
+			}
+			caseSpaces := []*explore.Space{
+				pathSpace("C01", "S1xCase3", "1-step paths over name tests {a, A, ab} x documents whose names differ only in letter case or extend each other", pathsN(caseForms, 1), caseDocs, both, "set"),
+				pathSpace("C01", "S2/5xCase3", "fixed stratum (every 5th) of 2-step paths over name tests {a, A, ab} x the same documents", stridePaths(pathsN(caseForms, 2), 5), caseDocs, []string{"select"}, "set"),
+			}
+			return append([]*explore.Space{
 				pathSpace("C01", "S1xT3", "1-step paths x T(<=3)", pathsN(forms, 1), func() []*doc.Tree { return uniT(3) }, both, "set"),
 				pathSpace("C01", "S2xT3", "2-step paths x T(<=3)", pathsN(forms, 2), func() []*doc.Tree { return uniT(3) }, both, "set"),
 				pathSpace("C01", "S3qxT3", "3-step paths over 12 axes x tests {node(), a}, '/' separators, relative and after // x T(<=3)", threeStep(), func() []*doc.Tree { return uniT(3) }, []string{"select"}, "set"),
 				pathSpace("C01", "S1xDeep6", "1-step paths x spine documents of depth 4..6", pathsN(forms, 1), func() []*doc.Tree { return uniDeep(6) }, both, "set"),
 				pathSpace("C01", "S2/8xDeep6", "fixed stratum (every 8th) of 2-step paths x spine documents of depth 4..6", stridePaths(pathsN(forms, 2), 8), func() []*doc.Tree { return uniDeep(6) }, []string{"select"}, "set"),
-			}
+			}, caseSpaces...)
 		},
 	})
 }
